@@ -132,7 +132,26 @@ Definition first_arm (pat : list tok) : option armres :=
   match arm3 pat with Some r => Some r | None =>
   match arm4 pat with Some r => Some r | None => arm5 pat end end end end.
 
-(** __priv_assign_tuple!{$var, $fields, pat..} followed by __priv_next_ai_access.
+(** __priv_next_ai_access!{ ($lhs) $var, $fields, $rem }, three arms:
+      [( (0 $($rem_fields)* ), )]             ->  [$lhs = $var;]
+      [( ($field $($rem_fields)* ), )]        ->  [$lhs = $var.$field;]
+      [( ($field $($rem_fields)* ), $rem+ )]  ->  [$lhs = $var.$field;]
+                                                  [__priv_assign_tuple!($var, (rem_fields), $rem+)]
+    [recur] is that last invocation.  An empty field list matches no arm. *)
+Definition next_ai_access (lhs : list tok) (fields rem : list tok)
+           (recur : list tok -> list tok -> option (list stmt)) : option (list stmt) :=
+  match fields, rem with
+  | [], _ => None
+  | KNum O :: _, [] => Some [SAssign lhs Whole]
+  | f :: _, [] => Some [SAssign lhs (Field f)]
+  | f :: rf, _ :: _ =>
+      match recur rf rem with
+      | Some more => Some (SAssign lhs (Field f) :: more)
+      | None => None
+      end
+  end.
+
+(** __priv_assign_tuple!{$var, $fields, pat..}.
     [tr] is how the third arm of __priv_next_ai_access transcribes the remaining fields:
     the identity in the repaired code [($($rem_fields)* )].
     [None] = no arm matches (a compile error) or the fuel ran out. *)
@@ -144,16 +163,10 @@ Fixpoint assign_tuple (tr : list tok -> list tok) (fuel : nat) (fields pat : lis
       match first_arm pat with
       | None => None
       | Some (pre, lhs, rem) =>
-          (* __priv_next_ai_access!{ ($lhs) $var, $fields, $rem } *)
-          match fields, rem with
-          | [], _ => None
-          | KNum O :: _, [] => Some (pre ++ [SAssign lhs Whole])
-          | f :: _, [] => Some (pre ++ [SAssign lhs (Field f)])
-          | f :: rf, _ :: _ =>
-              match assign_tuple tr fuel' (tr rf) rem with
-              | Some more => Some (pre ++ SAssign lhs (Field f) :: more)
-              | None => None
-              end
+          match next_ai_access lhs fields rem
+                  (fun rf rem' => assign_tuple tr fuel' (tr rf) rem') with
+          | Some ss => Some (pre ++ ss)
+          | None => None
           end
       end
   end.
